@@ -240,7 +240,7 @@ version `v`; a trailing `.*` only after `==`/`!=` and only on a bare release; a 
 (`Specifier._regex` enforces exactly these; C12 proves that language against PEP 440.) -/
 inductive Clause : Spec → Ver → Bool → Prop
   | plain (op : S.Op) (raw : Str) (v : Ver) (hop : op ≠ .arbitrary) (hv : scan raw = some v)
-      (hnw : endsWith raw [46, 42] = false) (hloc : v.loc ≠ none → op = .eq ∨ op = .ne)
+      (hnw : op = .eq ∨ op = .ne → endsWith raw [46, 42] = false) (hloc : v.loc ≠ none → op = .eq ∨ op = .ne)
       (hcompat : op = .compatible → 2 ≤ v.release.length) : Clause ⟨op, raw⟩ v false
   | wild (op : S.Op) (t : Str) (v : Ver) (hop : op = .eq ∨ op = .ne) (hv : scan t = some v) (hb : Bare v) :
       Clause ⟨op, t ++ [46, 42]⟩ v true
@@ -258,8 +258,8 @@ theorem compare_eq_spec (sp : Spec) (v : Ver) (wild : Bool) (c : Ver) (hcl : Cla
         | none => rfl
         | some l => have := hloc (by simp [h]); simp at this
       exact compat_eq_spec c v raw wc hv hl (hcompat rfl)
-    | eq => exact eq_eq_spec c v raw wc hv hnw
-    | ne => exact ne_eq_spec c v raw wc hv hnw
+    | eq => exact eq_eq_spec c v raw wc hv (hnw (.inl rfl))
+    | ne => exact ne_eq_spec c v raw wc hv (hnw (.inr rfl))
     | le => exact le_eq_spec c v raw wc hv
     | ge => exact ge_eq_spec c v raw wc hv
     | lt => exact lt_eq_spec c v raw wc hv
@@ -332,7 +332,7 @@ theorem readClause_sound (sp : Spec) (v : Ver) (w : Bool) (h : readClause sp = s
           subst ht
           rw [take_wild] at hs
           simp only [Bool.not_true, Bool.false_or, Bool.and_eq_true, Option.isNone_iff_eq_none] at hc
-          exact .wild op t v' hw.1 hs ⟨hc.1.1.1.1.1.1, hc.1.1.1.1.1.2, hc.1.1.1.1.2, hc.1.1.1.2⟩
+          exact .wild op t v' hw.1 hs ⟨hc.1.1.1.1.1, hc.1.1.1.1.2, hc.1.1.1.2, hc.1.1.2⟩
         · cases h
     | false =>
       simp only [hw, Bool.false_eq_true, if_false] at h
@@ -344,12 +344,16 @@ theorem readClause_sound (sp : Spec) (v : Ver) (w : Bool) (h : readClause sp = s
         · rename_i hc
           simp only [Option.some.injEq, Prod.mk.injEq] at h
           obtain ⟨rfl, rfl⟩ := h
-          simp only [Bool.not_false, Bool.true_or, Bool.true_and, Bool.false_or, Bool.and_eq_true,
-            Bool.or_eq_true, beq_iff_eq, bne_iff_ne, ne_eq, decide_eq_true_eq, Bool.not_eq_true',
+          simp only [Bool.not_false, Bool.true_or, Bool.true_and, Bool.and_eq_true,
+            Bool.or_eq_true, beq_iff_eq, bne_iff_ne, ne_eq, decide_eq_true_eq,
             Option.isNone_iff_eq_none] at hc
-          refine .plain op raw v' hop hs hc.1.1 ?_ ?_
+          refine .plain op raw v' hop hs ?_ ?_ ?_
+          · intro hopeq
+            have h1 : (op == S.Op.eq || op == S.Op.ne) = true := by
+              rcases hopeq with rfl | rfl <;> rfl
+            rw [h1, Bool.true_and] at hw; exact hw
           · intro hl
-            rcases hc.1.2 with (h1 | h1) | h1
+            rcases hc.1 with (h1 | h1) | h1
             · exact absurd h1 hl
             · exact .inl h1
             · exact .inr h1
@@ -359,23 +363,63 @@ theorem readClause_sound (sp : Spec) (v : Ver) (w : Bool) (h : readClause sp = s
             · exact h1
         · cases h
 
-/- Full statement, of which `contains_eq_spec_strings` is the part proved (the missing half is a parser lemma:
-   whatever `Specifier.__init__` stores reads as a clause — prefix-stability of `V.scanCore` on the text consumed by
-   `S.parseSpec`; it is decidable per clause and measured by the `spec.clause` correspondence):
+/-! ### from `Specifier.__init__` to `readClause` -/
 
-     theorem contains_eq_spec_full (s cs : Str) (sp : Spec) (c : Ver) (override : Option Bool)
-         (hp : parseSpec s = some sp) (hc : scan cs = some c) :
-         ∃ v w, readClause sp = some (v, w) ∧
-           sp.contains override c (some true) = .ok (admits sp.op v w sp.ver c)
--/
+theorem scanCore_no_ws (t : Str) (x : Ver × Str) (h : scanCore t = some x) : t.dropWhile isWs = t := by
+  cases t with
+  | nil => rfl
+  | cons c cs =>
+    by_cases hw : isWs c = true
+    · exfalso
+      have hb : c = 32 ∨ (9 ≤ c ∧ c ≤ 13) := by simpa [isWs] using hw
+      have hl : (lowerAscii c == 118) = false := by
+        have : isUpperAscii c = false := by simp [isUpperAscii]; omega
+        simp [lowerAscii, this]; omega
+      have hd : isDigit c = false := by simp [isDigit]; omega
+      rw [scanCore_eq] at h
+      simp [stripV, hl, optNum, spanDigits, hd] at h
+    · simp [List.dropWhile, hw]
 
-/-- **C03, from the strings.**  `Specifier(s).contains(cs, prereleases=True)` for a clause string `s` that
-`Specifier` accepts and whose stored text reads as a clause (`readClause`; measured on every generated clause by
-the `spec.clause` correspondence), and any candidate string `cs` that `Version` accepts. -/
-theorem contains_eq_spec_strings (s cs : Str) (sp : Spec) (v : Ver) (w : Bool) (c : Ver) (override : Option Bool)
-    (_hp : parseSpec s = some sp) (hr : readClause sp = some (v, w)) (hc : scan cs = some c) :
-    sp.contains override c (some true) = .ok (admits sp.op v w sp.ver c) :=
-  contains_eq_spec sp v w c override (readClause_sound sp v w hr) (scan_wf cs c hc)
+theorem scan_of_scanCore (t : Str) (v : Ver) (h : scanCore t = some (v, [])) : scan t = some v := by
+  simp [scan, scanCore_no_ws t _ h, h]
+
+/-- **whatever `Specifier.__init__` stores reads as a clause** -/
+theorem parse_readClause (s : Str) (sp : Spec) (hp : parseSpec s = some sp) :
+    ∃ v w, readClause sp = some (v, w) := by
+  unfold parseSpec at hp
+  split at hp
+  · cases hp
+  · rename_i op r _
+    simp only at hp
+    by_cases hop : op = .arbitrary
+    · subst hop
+      simp only [beq_self_eq_true, if_true] at hp
+      split at hp
+      · injection hp with hp; subst hp
+        exact ⟨⟨0, [], none, none, none, none⟩, false, by simp [readClause]⟩
+      · cases hp
+    · have hop' : (op == S.Op.arbitrary) = false := by simpa using hop
+      simp only [hop', Bool.false_eq_true, if_false] at hp
+      split at hp
+      · rename_i v hsc
+        split at hp
+        · rename_i hform
+          injection hp with hp; subst hp
+          refine ⟨v, (op == S.Op.eq || op == S.Op.ne) && endsWith (stripBy isWs r) [46, 42], ?_⟩
+          simp only [readClause, hop', Bool.false_eq_true, if_false, scan_of_scanCore _ v hsc]
+          exact if_pos hform
+        · cases hp
+      · cases hp
+
+/-- **C03, from the strings.**  For every string `s` that `Specifier` accepts and every string `cs` that `Version`
+accepts, `Specifier(s).contains(cs, prereleases=True)` is the PEP 440 definition of the operator applied to the
+version the clause names (`readClause`) and to the candidate; no exception escapes. -/
+theorem contains_eq_spec_strings (s cs : Str) (sp : Spec) (c : Ver) (override : Option Bool)
+    (hp : parseSpec s = some sp) (hc : scan cs = some c) :
+    ∃ v w, readClause sp = some (v, w) ∧
+      sp.contains override c (some true) = .ok (admits sp.op v w sp.ver c) := by
+  obtain ⟨v, w, hr⟩ := parse_readClause s sp hp
+  exact ⟨v, w, hr, contains_eq_spec sp v w c override (readClause_sound sp v w hr) (scan_wf cs c hc)⟩
 
 /-! ### non-vacuity: concrete clauses and candidates on every branch -/
 
@@ -401,7 +445,7 @@ example : admits .eq (mk [1, 0, 0] (epoch := 1)) true [] (mk [1] (epoch := 1)) =
 -- `~=1.0.POST1` (any spelling) means `>=1.0.post1, ==1.*`: it admits 1.1 — this failed before C03-fix-1
 example : Clause ⟨.compatible, ofString "1.0.POST1"⟩ (mk [1, 0] (post := some 1)) false :=
   .plain .compatible (ofString "1.0.POST1") (mk [1, 0] (post := some 1)) (by decide) (by decide +kernel)
-    (by decide +kernel) (by decide) (by decide)
+    (by decide) (by decide) (by decide)
 example : okTrue ((⟨.compatible, ofString "1.0.POST1"⟩ : Spec).compare (mk [1, 1])) = true := by decide +kernel
 example : okTrue ((⟨.compatible, ofString "v1.0"⟩ : Spec).compare (mk [1, 5])) = true := by decide +kernel
 -- `>1.0.post1` admits `1.0.post2+x`, `>1.0a1` admits `1.0+x` (failed before C03-fix-2); `>1.0` rejects `1.0+x`
